@@ -36,6 +36,7 @@ type layItem struct {
 	Gap       int    `json:"gap"`
 	Long      bool   `json:"long"`
 	Nm        string `json:"nm"`
+	Mention   bool   `json:"mention"`
 	name      string   // interface name fixed by layNames
 	methods   []string // method names fixed by layNames (recvsame)
 }
@@ -232,6 +233,9 @@ func layRender(l *layCase) map[string]string {
 				fmt.Fprintf(&sb, "/* Keep%s is documented tokDOC%s\n   in a block comment. */\n", up(it.ID), it.ID)
 			} else if it.Doc && it.Long {
 				fmt.Fprintf(&sb, "// Keep%s is documented tokDOC%s%s\n", up(it.ID), it.ID, layFiller(it))
+			} else if it.Doc && it.Mention {
+				// prose that names a directive in the middle of a line is prose
+				fmt.Fprintf(&sb, "// Keep%s is documented tokDOC%s\n// and run by //go:generate as the manual says tokDN%s\n// or under // +build convergen alone tokDP%s.\n", up(it.ID), it.ID, it.ID, it.ID)
 			} else if it.Doc {
 				fmt.Fprintf(&sb, "// Keep%s is documented tokDOC%s\n// on two lines.\n", up(it.ID), it.ID)
 			}
@@ -304,6 +308,9 @@ func layRender(l *layCase) map[string]string {
 			for k, m := range ms {
 				if it.Mdoc {
 					fmt.Fprintf(&sb, "\t// %s is documented tokMD%s%d.\n", m, it.ID, k)
+					if it.Mention {
+						fmt.Fprintf(&sb, "\t// it is regenerated by //go:generate whenever the types change tokMG%s%d\n", it.ID, k)
+					}
 					if selected {
 						// notation lines interleaved with prose: every notation line goes, every prose line stays
 						fmt.Fprintf(&sb, "\t// :typecast\n\t// second paragraph tokME%s%d\n\t// :stringer\n\t// :getter:off\n\t// last line tokMF%s%d\n", it.ID, k, it.ID, k)
@@ -363,6 +370,19 @@ type layObs struct {
 }
 
 var reLeft = regexp.MustCompile(`(?m)^\s*//\s*(go:generate\b.*|go:build convergen\b.*|\+build convergen\b.*)$`)
+// declDoc says whether the doc comment of a carried-over declaration is complete: its token line and - where the
+// layout put them there - the prose lines that mention a directive.
+func declDoc(it *layItem, cg *ast.CommentGroup) bool {
+	has := func(tok string) bool { return cg != nil && strings.Contains(cg.Text(), tok) }
+	if !has("tokDOC" + it.ID) {
+		return false
+	}
+	if it.Doc && it.Mention && it.Form != "blockvar" && !it.Long {
+		return has("tokDN"+it.ID) && has("tokDP"+it.ID)
+	}
+	return true
+}
+
 var reNoteLine = regexp.MustCompile(`^//\s*:\w`)
 
 func layProject(l *layCase, src []byte) (*layObs, error) {
@@ -462,6 +482,10 @@ func layProject(l *layCase, src []byte) (*layObs, error) {
 				doc := true
 				if it.Mdoc {
 					doc = docHas(x.Doc, fmt.Sprintf("tokMD%s%d", it.ID, k)) && docHas(x.Doc, fmt.Sprintf("tokME%s%d", it.ID, k)) && docHas(x.Doc, fmt.Sprintf("tokMF%s%d", it.ID, k))
+					if it.Mention && !docHas(x.Doc, fmt.Sprintf("tokMG%s%d", it.ID, k)) {
+						doc = false
+						o.Problems = append(o.Problems, "the prose line of the doc of method "+name+" that mentions a directive is not in the function's doc")
+					}
 				}
 				if x.Doc != nil {
 					for _, c := range x.Doc.List {
@@ -486,7 +510,7 @@ func layProject(l *layCase, src []byte) (*layObs, error) {
 				continue
 			}
 			if it, ok := byDecl[name]; ok && it.K == "decl" {
-				o.Items = append(o.Items, layOut{K: "decl", ID: it.ID, Doc: docHas(x.Doc, "tokDOC"+it.ID), Trail: tokLine["tokTR"+it.ID] == lineOf(x.End()) && tokLine["tokTR"+it.ID] != 0})
+				o.Items = append(o.Items, layOut{K: "decl", ID: it.ID, Doc: declDoc(it, x.Doc), Trail: tokLine["tokTR"+it.ID] == lineOf(x.End()) && tokLine["tokTR"+it.ID] != 0})
 				if tokLine["tokIN"+it.ID] == 0 {
 					o.Problems = append(o.Problems, "the comment inside "+name+" is lost")
 				}
@@ -519,7 +543,7 @@ func layProject(l *layCase, src []byte) (*layObs, error) {
 				}
 				switch it.K {
 				case "decl":
-					o.Items = append(o.Items, layOut{K: "decl", ID: it.ID, Doc: docHas(x.Doc, "tokDOC"+it.ID), Trail: tokLine["tokTR"+it.ID] == lineOf(end) && tokLine["tokTR"+it.ID] != 0})
+					o.Items = append(o.Items, layOut{K: "decl", ID: it.ID, Doc: declDoc(it, x.Doc), Trail: tokLine["tokTR"+it.ID] == lineOf(end) && tokLine["tokTR"+it.ID] != 0})
 					if (it.Form == "type" || it.Form == "varblock") && tokLine["tokIN"+it.ID] == 0 {
 						o.Problems = append(o.Problems, "the comment inside "+name+" is lost")
 					}
